@@ -698,6 +698,18 @@ func c16GenMerged(r *Rng) c16Input {
 		in.Queries = append(in.Queries, c16Query{Num: b.Num})
 	}
 	in.Queries = append(in.Queries, c16Query{Num: uint64(r.Intn(100))})
+	// Y1: the numbers around every stored block (gaps, the number after the last block), the same numbers in the next
+	// bundle (its file does not exist), the last number of the bundle: the answer must be not-found exactly when no
+	// block of the bundle has the number (merged_exact_y1)
+	for _, b := range bs {
+		if b.Num > 0 {
+			in.Queries = append(in.Queries, c16Query{Num: b.Num - 1})
+		}
+		in.Queries = append(in.Queries, c16Query{Num: b.Num + 1})
+	}
+	if len(bs) > 0 {
+		in.Queries = append(in.Queries, c16Query{Num: 100 + bs[0].Num}, c16Query{Num: 99}, c16Query{Num: 100})
+	}
 	return in
 }
 
